@@ -139,6 +139,9 @@ def check_in_runs(chk, r, n_runs):
         res = smcrun.run_smc(cfg)
         chk.case(None, json.dumps(cfg))
         chk.count("in-run")
+        if smcrun.collapsed_population(res):
+            chk.count("skipped:population_collapsed_rejected_by_library")
+            continue
         if res["status"] != "done":
             chk.fail("run total", {"level": "run", "cfg": cfg}, repr(res.get("exc")), {"clause": "raise"})
             continue
